@@ -343,3 +343,229 @@ Example C24_witness_mapper_form :
       XGot 1%nat (Next 0); XSSub 1%nat; XOp (CNext 4); XGot 0%nat (Next 4); XGot 1%nat (Next 4); XOp (CUnsub 0%nat);
       XSUnsub 0%nat; XOp CDone; XGot 1%nat Done; XSUnsub 1%nat; XOp (CSub 2%nat); XGot 2%nat (Next 0); XSSub 2%nat], true).
 Proof. vm_compute. reflexivity. Qed.
+
+(* ======================================================================================
+   Added after the theorem audit (second wave): P1 and P2 of audit/thm-C23-C24.md.
+   Proofs: Subjects/ConnectableReplayFacts.v, Subjects/ConnectableMapperFacts.v.
+   ====================================================================================== *)
+From RxVerif Require Import Subjects.SubjectFacts Subjects.ReplaySpec Subjects.ReplayTreeFacts Subjects.ConnectableMapperFacts
+  Subjects.ConnectableReplayFacts.
+
+(* ---- 4b. what a subscriber receives, replay() flavour (multicast(ReplaySubject(buffer, window))),
+        for EVERY call tree (arbitrary reactions: subscribers that subscribe, unsubscribe, connect,
+        disconnect, make the source emit from inside their callbacks), every mode, every cold prefix,
+        every buffer size and window.  When the run is finished, a subscriber whose wrapper is still
+        live, or that was stopped by a terminal notification, has received EXACTLY the C22
+        entitlement [xview] on the sequence of calls made on the shared ReplaySubject: nothing before
+        its subscribe call; at that call the values RETAINED at that moment (the last buffer_size
+        ones not older than the window -- "plus the replayed values"), then the terminal notification
+        if the subject had ended; afterwards every notification that came through the connection.
+        (The audit proposed this for histories of top-level calls; the proof -- the subject's side of
+        the machine satisfies the C22 invariant of arbitrary call trees, a call being a push in FRONT
+        of the pending engine instructions -- gives it for all trees.) ---- *)
+Theorem C24_replay_subscriber_receives_retained_then_later :
+  forall (A : Type) (bs w : option Z) (md : mode) (reach : bool) (cold : list (ev A))
+         (react : nat -> nat -> list cop) (top : list cop) (fuel o : nat) (os : @rostate A),
+    let c := krun replay_exec replay_call md reach cold react fuel
+                  (kinit [RIDrain] md (replay_init bs w) top) in
+    k_k c = [] -> snd (k_eng c) o = Some os ->
+    (ra_stopped os = false \/ has_term (cview o (klog_of c)) = true) ->
+    cview o (klog_of c) = xview (bufsize_of bs) w o false rg_init (calls_of (klog_of c)).
+Proof. exact (@multicast_view_replay). Qed.
+Print Assumptions C24_replay_subscriber_receives_retained_then_later.
+
+(* ... and at EVERY moment of every run (any fuel, finished or not) what a subscriber has received
+   is a PREFIX of that entitlement: the multicast layer duplicates, reorders and invents nothing *)
+Theorem C24_replay_subscriber_view_is_a_prefix :
+  forall (A : Type) (bs w : option Z) (md : mode) (reach : bool) (cold : list (ev A))
+         (react : nat -> nat -> list cop) (top : list cop) (fuel o : nat),
+    let c := krun replay_exec replay_call md reach cold react fuel
+                  (kinit [RIDrain] md (replay_init bs w) top) in
+    prefix (cview o (klog_of c)) (xview (bufsize_of bs) w o false rg_init (calls_of (klog_of c))).
+Proof. exact (@multicast_prefix_replay). Qed.
+Print Assumptions C24_replay_subscriber_view_is_a_prefix.
+
+(* the hypotheses hold on a re-entrant tree: replay(2) + ref_count, subscriber 0 subscribes
+   subscriber 1 from inside its first callback; subscriber 1 is replayed the value being delivered *)
+Example C24_witness_replay_view_hyp :
+  let c := krun replay_exec replay_call MRefCount true [] (creact_tbl [(0%nat, [[CSub 1%nat]])]) 1000
+             (kinit [RIDrain] MRefCount (replay_init (Some 2) None)
+                    [CSub 0%nat; CNext 3; CNext 4; CNext 5; CSub 2%nat]) in
+  k_k c = [] /\ (exists os, snd (k_eng c) 1%nat = Some os /\ ra_stopped os = false) /\
+  calls_of (klog_of c) = [RSub 0%nat; RNext 3; RSub 1%nat; RNext 4; RNext 5; RSub 2%nat] /\
+  cview 1%nat (klog_of c) = [Next 3; Next 4; Next 5] /\ cview 2%nat (klog_of c) = [Next 4; Next 5].
+Proof. vm_compute. split; [reflexivity|]. split; [eexists; split; reflexivity|]. repeat split; reflexivity. Qed.
+
+(* ---- 5b. multicast(subject_factory, mapper): ONE source subscription per subscription.  Every
+        engine, identity mapper, histories of top-level calls, every fuel: the per-subscriber
+        connection never subscribes the source more than once, and has subscribed it exactly once
+        as soon as it has nothing pending (invariant: source subscriptions logged + connects still
+        pending = 1, and while a connect is pending the instance is disconnected) ---- *)
+Theorem C24_mapper_form_exactly_one_source_subscription :
+  forall (A E_st E_in E_op : Type) (e_exec : E_in -> E_st -> E_st * list E_in * list sev)
+         (e_call : sop -> list E_in) (e_drain : list E_in) (cold : list (ev A)) (st0 : E_st)
+         (fuel : nat) (top : list cop) (o : nat) (c : @kcfg A E_st E_in E_op),
+    In (o, c) (fst (mrun e_exec e_call e_drain cold st0 fuel [] top)) ->
+    (nssub (k_log c) <= 1)%nat /\ (kfinished c = true -> nssub (k_log c) = 1%nat).
+Proof. exact (@mapper_one_source_subscription). Qed.
+Print Assumptions C24_mapper_form_exactly_one_source_subscription.
+
+(* ... and (Subject / BehaviorSubject / AsyncSubject factories) the subscriber of a finished
+   instance has received exactly the family specification on the calls made on ITS OWN subject:
+   the greeting of a fresh subject (the INITIAL value for publish_value, never the source's last
+   one), then what its own connection delivered *)
+Theorem C24_mapper_form_subscriber_view :
+  forall (A : Type) (pynone : A) (K : kind) (v0 : A) (cold : list (ev A)) (fuel : nat)
+         (top : list cop) (o : nat) (c : @kcfg A (@sync_st A) (@instr A) (@op A)),
+    In (o, c) (fst (mrun (sync_exec (cls_of pynone K)) sync_call [] cold (sync_init v0) fuel [] top)) ->
+    k_k c = [] ->
+    forall o' : nat, cview o' (klog_of c) = oview K o' Before (g_init v0) (calls_of (klog_of c)).
+Proof. exact (@mapper_view). Qed.
+Print Assumptions C24_mapper_form_subscriber_view.
+
+(* the instances of the run of C24_witness_mapper_form: each finished, each with exactly one source
+   subscription, each subscriber greeted with the initial value 0 *)
+Example C24_witness_mapper_instances :
+  map (fun x => (fst x, nssub (k_log (snd x)), kfinished (snd x), cview (fst x) (klog_of (snd x))))
+      (fst (mrun (sync_exec (cls_of 0 KBehavior)) sync_call [] [] (sync_init 0) 1000 []
+                 [CSub 0%nat; CNext 3; CSub 1%nat; CNext 4; CUnsub 0%nat; CDone; CSub 2%nat]))
+  = [(0%nat, 1%nat, true, [Next 0; Next 3; Next 4]); (1%nat, 1%nat, true, [Next 0; Next 4; Done]);
+     (2%nat, 1%nat, true, [Next 0])].
+Proof. vm_compute. reflexivity. Qed.
+
+(* ---- 2b. ref_count / share ON CALL TREES (Subjects/ConnectableRefCountTreeFacts.v).  Every subject
+        engine, every cold prefix, every fuel, ARBITRARY reactions: subscribers that subscribe other
+        subscribers, unsubscribe, make the source emit from inside their callbacks -- re-entrantly,
+        while a subscribe() or the connect() further down the stack is still in progress.  Only
+        manual connect() / dispose of the connection next to the operator stay excluded (top level
+        and scripts: [nomanual]).  Invariant over the stack of suspended frames: every pending
+        connect() is immediately followed by the pending return of the subscribe() that made it;
+        count = armed + subscribe() in progress + dispose() in progress. ---- *)
+From RxVerif Require Import Subjects.ConnectableRefCountTreeFacts.
+
+(* connected  <=>  count > 0 and no connect() is pending.  (On histories of top-level calls the
+   pending connect sits in the one subscribe() in progress, whose count is 1, which gives the
+   formula of C24_ref_count_connected_iff_count_positive; on trees a subscriber may come in from the
+   greeting callback of the first one, between `count += 1` and `source.connect()`: count 2, not yet
+   connected -- that formula is FALSE there, see the _refuted example below.) *)
+Theorem C24_ref_count_on_trees_connected_iff :
+  forall (A E_st E_in E_op : Type) (e_exec : E_in -> E_st -> E_st * list E_in * list sev)
+         (e_call : sop -> list E_in) (reach : bool) (cold : list (ev A)) (react : nat -> nat -> list cop),
+    (forall o k : nat, Forall nomanual (react o k)) ->
+    forall (e_drain : list E_in) (st0 : E_st) (top : list cop) (fuel : nat),
+    Forall nomanual top ->
+    let c := krun e_exec e_call MRefCount reach cold react fuel (kinit (E_op := E_op) e_drain MRefCount st0 top) in
+    has_sub (k_bk c) = (0 <? count (k_bk c)) && (nconnect (k_k c) =? 0)%nat.
+Proof. exact (@rc_tree_connected_iff). Qed.
+Print Assumptions C24_ref_count_on_trees_connected_iff.
+
+(* the count is the number of subscribers whose dispose has not run yet, on every tree *)
+Theorem C24_ref_count_on_trees_counts_subscribers :
+  forall (A E_st E_in E_op : Type) (e_exec : E_in -> E_st -> E_st * list E_in * list sev)
+         (e_call : sop -> list E_in) (reach : bool) (cold : list (ev A)) (react : nat -> nat -> list cop),
+    (forall o k : nat, Forall nomanual (react o k)) ->
+    forall (e_drain : list E_in) (st0 : E_st) (top : list cop) (fuel : nat),
+    Forall nomanual top ->
+    let c := krun e_exec e_call MRefCount reach cold react fuel (kinit (E_op := E_op) e_drain MRefCount st0 top) in
+    exists L : list nat,
+      NoDup L /\ (forall o : nat, oflag (k_out c) o = true -> In o L) /\
+      count (k_bk c) = Z.of_nat (nact (k_out c) L + nret (k_k c) + ndec (k_k c)).
+Proof. exact (@rc_tree_count_is_subscribers). Qed.
+Print Assumptions C24_ref_count_on_trees_counts_subscribers.
+
+(* "connects on the FIRST subscriber": a subscribe() of ref_count pushes a connect() exactly when it
+   finds the count at 0, and that is exactly when the connectable is disconnected with no connect
+   pending; the count becomes 1 ... *)
+Theorem C24_ref_count_on_trees_first_subscriber_connects :
+  forall (A E_st E_in E_op : Type) (e_exec : E_in -> E_st -> E_st * list E_in * list sev)
+         (e_call : sop -> list E_in) (reach : bool) (cold : list (ev A)) (react : nat -> nat -> list cop),
+    (forall o k : nat, Forall nomanual (react o k)) ->
+    forall (e_drain : list E_in) (st0 : E_st) (top : list cop) (fuel o : nat) (k : list kinstr),
+    Forall nomanual top ->
+    let c := krun e_exec e_call MRefCount reach cold react fuel (kinit (E_op := E_op) e_drain MRefCount st0 top) in
+    k_k c = KInc o :: k ->
+    (count (k_bk c) = 0 <-> has_sub (k_bk c) = false /\ nconnect k = 0%nat) /\
+    (count (k_bk c) = 0 ->
+       nconnect (k_k (kstep e_exec e_call MRefCount reach cold react c)) = 1%nat /\
+       count (k_bk (kstep e_exec e_call MRefCount reach cold react c)) = 1) /\
+    (count (k_bk c) <> 0 ->
+       nconnect (k_k (kstep e_exec e_call MRefCount reach cold react c)) = nconnect k).
+Proof. exact (@rc_tree_first_subscriber_connects). Qed.
+Print Assumptions C24_ref_count_on_trees_first_subscriber_connects.
+
+(* ... and when that connect() runs it is the only one in progress, it was made by ref_count, the
+   connectable is disconnected -- so it subscribes the source (C24_connect_subscribes_once) -- and
+   the count is at least 1 (exactly 1 on a history of top-level calls) *)
+Theorem C24_ref_count_on_trees_connect_finds_it_disconnected :
+  forall (A E_st E_in E_op : Type) (e_exec : E_in -> E_st -> E_st * list E_in * list sev)
+         (e_call : sop -> list E_in) (reach : bool) (cold : list (ev A)) (react : nat -> nat -> list cop),
+    (forall o k : nat, Forall nomanual (react o k)) ->
+    forall (e_drain : list E_in) (st0 : E_st) (top : list cop) (fuel : nat) (w : caller) (k : list kinstr),
+    Forall nomanual top ->
+    let c := krun e_exec e_call MRefCount reach cold react fuel (kinit (E_op := E_op) e_drain MRefCount st0 top) in
+    k_k c = KConnect w :: k ->
+    w = ByRefCount /\ has_sub (k_bk c) = false /\ 1 <= count (k_bk c) /\ nconnect k = 0%nat.
+Proof. exact (@rc_tree_connect_at_first_subscriber). Qed.
+Print Assumptions C24_ref_count_on_trees_connect_finds_it_disconnected.
+
+(* "disconnects on the LAST subscriber": the body of a dispose() that finds the count at 1 finds the
+   connectable connected and leaves it disconnected with count 0, in that very step; one that finds
+   a larger count changes nothing but the count *)
+Theorem C24_ref_count_on_trees_last_subscriber_disconnects :
+  forall (A E_st E_in E_op : Type) (e_exec : E_in -> E_st -> E_st * list E_in * list sev)
+         (e_call : sop -> list E_in) (reach : bool) (cold : list (ev A)) (react : nat -> nat -> list cop),
+    (forall o k : nat, Forall nomanual (react o k)) ->
+    forall (e_drain : list E_in) (st0 : E_st) (top : list cop) (fuel : nat) (k : list kinstr),
+    Forall nomanual top ->
+    let c := krun e_exec e_call MRefCount reach cold react fuel (kinit (E_op := E_op) e_drain MRefCount st0 top) in
+    k_k c = KDec :: k ->
+    (count (k_bk c) = 1 ->
+       has_sub (k_bk c) = true /\
+       has_sub (k_bk (kstep e_exec e_call MRefCount reach cold react c)) = false /\
+       count (k_bk (kstep e_exec e_call MRefCount reach cold react c)) = 0) /\
+    (count (k_bk c) <> 1 ->
+       has_sub (k_bk (kstep e_exec e_call MRefCount reach cold react c)) = has_sub (k_bk c) /\
+       0 < count (k_bk (kstep e_exec e_call MRefCount reach cold react c))).
+Proof. exact (@rc_tree_last_subscriber_disconnects). Qed.
+Print Assumptions C24_ref_count_on_trees_last_subscriber_disconnects.
+
+(* run level, in terms of the source's own log: at every moment of every run on every tree, when
+   no subscriber is left (count 0) the source has no open subscription *)
+Theorem C24_ref_count_on_trees_no_subscriber_no_source_subscription :
+  forall (A E_st E_in E_op : Type) (e_exec : E_in -> E_st -> E_st * list E_in * list sev)
+         (e_call : sop -> list E_in) (reach : bool) (cold : list (ev A)) (react : nat -> nat -> list cop),
+    (forall o k : nat, Forall nomanual (react o k)) ->
+    forall (e_drain : list E_in) (st0 : E_st) (top : list cop) (fuel : nat),
+    Forall nomanual top ->
+    let c := krun e_exec e_call MRefCount reach cold react fuel (kinit (E_op := E_op) e_drain MRefCount st0 top) in
+    count (k_bk c) = 0 -> src_state (src_log (klog_of c)) = Some None.
+Proof. exact (@rc_tree_no_subscriber_no_source_subscription). Qed.
+Print Assumptions C24_ref_count_on_trees_no_subscriber_no_source_subscription.
+
+(* the formula of the flat theorem is FALSE on trees: publish_value(0) + ref_count, subscriber 0
+   subscribes subscriber 1 from inside its greeting callback, i.e. inside its own subscribe(),
+   after `count += 1` and before `source.connect()`: count 2, one connect pending, NOT connected *)
+Example C24_ref_count_flat_formula_on_trees_refuted :
+  let c := krun (sync_exec (cls_of 0 KBehavior)) sync_call MRefCount true []
+                (creact_tbl [(0%nat, [[CSub 1%nat]])]) 6 (kinit [] MRefCount (sync_init 0) [CSub 0%nat]) in
+  has_sub (k_bk c) = false /\ count (k_bk c) = 2 /\ nconnect (k_k c) = 1%nat /\
+  (0 <? count (k_bk c) - Z.of_nat (nconnect (k_k c))) = true.
+Proof. vm_compute. repeat split; reflexivity. Qed.
+
+(* the hypotheses of the tree theorems are met by re-entrant runs: a subscriber that unsubscribes
+   itself from inside its first callback is the last one (dispose() finds count 1, the source is
+   released: the log shows XSUnsub); and a connect() that finds count 2 *)
+Example C24_witness_ref_count_on_trees :
+  let tbl := [(0%nat, [[CUnsub 0%nat]])] in
+  let c := krun (sync_exec (cls_of 0 KSubject)) sync_call MRefCount true [] (creact_tbl tbl) 14
+                (kinit [] MRefCount (sync_init 0) [CSub 0%nat; CNext 5; CNext 6]) in
+  (forall o k, Forall (@nomanual Z) (creact_tbl tbl o k)) /\
+  k_k c = [KDec; KOp (CNext 6)] /\ count (k_bk c) = 1 /\
+  run_config 0 (Config (FSync KSubject 0) MRefCount true []) 1000 ([CSub 0%nat; CNext 5; CNext 6], tbl)
+  = ([XOp (CSub 0%nat); XSSub 0%nat; XOp (CNext 5); XGot 0%nat (Next 5); XOp (CUnsub 0%nat); XSUnsub 0%nat;
+      XOp (CNext 6)], true).
+Proof.
+  cbv zeta. split; [|vm_compute; repeat split; reflexivity].
+  intros o k. cbn [creact_tbl]. destruct (Nat.eqb 0 o); [|constructor].
+  destruct k as [|[|k]]; cbn [nth]; repeat constructor.
+Qed.
